@@ -932,3 +932,38 @@ func TestSealedTwice(t *testing.T) {
 	}
 	P.SetExtra("sealed_twice_cases", n)
 }
+
+// TestHonestAfterHostile: a process that has been fed hostile CAR streams - first sections of 32 MiB that arrive in full
+// and are not a header, sections cut short, oversize announcements, garbage - six of each, goes on reading honest
+// containers of every format exactly as before. What a reader met earlier is nothing to the container at hand.
+func TestHonestAfterHostile(t *testing.T) {
+	ctx := &h.Ctx{P: P, T: t}
+	honest := fixedSets()[1]
+	check := func(when string) bool {
+		for _, f := range ctr.Formats {
+			for v := 0; v < 4; v++ {
+				prop.One(t, Case{Toks: honest, Order: []int{v}, Format: f, WStream: v&1 == 1, RStream: v&2 == 2, RKind: v})
+			}
+		}
+		return true
+	}
+	check("before")
+	junk := func(n int, fill byte) []byte {
+		b := binary.AppendUvarint(nil, uint64(n))
+		return append(b, bytes.Repeat([]byte{fill}, n)...)
+	}
+	rounds := 0
+	for round := 0; round < 6; round++ {
+		for _, hostile := range [][]byte{junk(32<<20, 0xa5), junk(32<<20, 0x00), junk(1<<20, 0xff), junk(32<<20, 0xa5)[:1<<20], binary.AppendUvarint(nil, 33<<20), {0xff, 0xff, 0xff}, append(junk(17, 0xa1), 0x05)} {
+			h.Try(func() {
+				_, _ = container.FromCarReader(bytes.NewReader(hostile))
+				_, _ = container.FromCar(hostile)
+				_, _ = container.FromCborReader(bytes.NewReader(hostile))
+			})
+			rounds++
+		}
+		check(fmt.Sprintf("after %d hostile streams", rounds))
+	}
+	_ = ctx
+	P.SetExtra("hostile_streams_before_honest", rounds)
+}
